@@ -72,7 +72,7 @@ CHECKS = {
     "C03": dict(
         engine="E1-family-explorer",
         technique="bounded exhaustive enumeration of model programs x all grid states as agents x all one-hot (identifying) transition arrays, real simulation; every (agent, period pair, state) checked against the reference evaluation of the transition functions",
-        text="Every model of Family_1(B0) and Family_2 on the interaction-prone features is simulated with every in-space grid state and an off-grid copy as agents (3 seeds for stochastic models). For every agent and every consecutive period pair the deterministic next states must equal the reference evaluation of the transition function at that agent's own states, reported choices, period and parameters; period-0 columns must equal the supplied arrays. For stochastic states every one-hot transition array (all of them up to 64; 8 for distance-2 models in the quick tier) turns the draw into a deterministic function of the selected row, so the row selection (dependency order, period index, agent alignment) is decided exactly; an array with zero entries checks that zero-probability labels never occur.",
+        text="Every model of Family_1(B0) and Family_2 on the interaction-prone features is simulated with every in-space grid state and an off-grid copy as agents (3 seeds for stochastic models). For every agent and every consecutive period pair the deterministic next states must equal the reference evaluation of the transition function at that agent's own states, reported choices, period and parameters; period-0 columns must equal the supplied arrays. For stochastic states every one-hot transition array (all of them up to 64; 5 for distance-2 models in the quick tier) turns the draw into a deterministic function of the selected row, so the row selection (dependency order, period index, agent alignment) is decided exactly; an array with zero entries checks that zero-probability labels never occur.",
         note="trusted: reference resolver; integers exact, floats 1e-12",
         design="§4 C03",
     ),
